@@ -315,13 +315,15 @@ structure StoreInv (st : Store) : Prop where
 def PerspOK (t : Trx) : Prop :=
   match t.persp with
   | none => t.phead = none ∧ t.pbase = []
-  | some p => ∃ last, p.cmds.getLast? = some last ∧ t.phead = some last.cmd.id ∧ t.pbase = p.prior ∧
-      Chain p.prior (cmds p.cmds) ∧ p.facts = last.st
+  | some p => ∃ last, p.cmds.getLast? = some last ∧ t.phead = some last.cmd.id ∧
+      Chain p.prior (cmds p.cmds) ∧ p.facts = last.st ∧
+      (∀ i ∈ t.pbase, i ∈ p.prior) ∧ (∀ i ∈ p.prior, i ∉ t.heads)
 
-/-- a transaction that has read the current head set -/
+/-- a transaction that has read the current head set: `heads ∪ pbase` is the frontier of what is
+committed or written, the whole view is well formed, the perspective is a chain on its prior -/
 structure TrxInv (st : Store) (t : Trx) : Prop where
   wf : WF (cmds (st.graph ++ t.written ++ inflight t))
-  heads : ∀ i, i ∈ t.heads ↔ IsTip (cmds (st.graph ++ t.written)) i
+  heads : ∀ i, (i ∈ t.heads ∨ i ∈ t.pbase) ↔ IsTip (cmds (st.graph ++ t.written)) i
   sorted : t.heads.Pairwise (· < ·)
   persp : PerspOK t
 
@@ -356,8 +358,8 @@ theorem flushT_inv {st : Store} {t : Trx} (h : TrxInv st t) :
     exact ⟨h, hpe, hp.1, hp.2, by simp [inflight, hpe], rfl⟩
   | some p =>
     rw [hpe] at hp
-    obtain ⟨last, hl, hph, hpb, hch, hf⟩ := hp
-    have hfl : flushT t = { t with persp := none, phead := none, pbase := [], written := t.written ++ p.cmds, heads := hsPush (t.pbase.foldl (fun h i => h.erase i) t.heads) last.cmd.id } := by
+    obtain ⟨last, hl, hph, hch, hf, hpa, hpb⟩ := hp
+    have hfl : flushT t = { t with persp := none, phead := none, pbase := [], written := t.written ++ p.cmds, heads := hsPush t.heads last.cmd.id } := by
       simp [flushT, hpe, hl]
     rw [hfl]
     have hw := h.wf
@@ -365,13 +367,20 @@ theorem flushT_inv {st : Store} {t : Trx} (h : TrxInv st t) :
     refine ⟨⟨?_, ?_, ?_, ?_⟩, rfl, rfl, rfl, by simp [inflight, hpe], rfl⟩
     · simpa [inflight, List.append_assoc] using hw
     · intro i
-      simp only
-      rw [mem_hsPush, mem_foldl_erase _ _ h.sorted, h.heads, hpb]
+      simp only [List.not_mem_nil, or_false]
       have hw' : WF (cmds (st.graph ++ t.written) ++ cmds p.cmds) := by simpa using hw
       have := isTip_chain hw' hch (getLast?_cmds hl) i
-      rw [show cmds (st.graph ++ (t.written ++ p.cmds)) = cmds (st.graph ++ t.written) ++ cmds p.cmds by simp]
-      exact this.symm
-    · exact hsPush_sorted (foldl_erase_sorted _ _ h.sorted)
+      rw [show cmds (st.graph ++ (t.written ++ p.cmds)) = cmds (st.graph ++ t.written) ++ cmds p.cmds by simp,
+        this, mem_hsPush, ← h.heads]
+      constructor
+      · rintro (e | e)
+        · exact Or.inl e
+        · exact Or.inr ⟨Or.inl e, fun hh => hpb i hh e⟩
+      · rintro (e | ⟨e | e, hn⟩)
+        · exact Or.inl e
+        · exact Or.inr e
+        · exact absurd (hpa i e) hn
+    · exact hsPush_sorted h.sorted
     · simp [PerspOK]
 
 theorem chain_snoc' {base : List Nat} {cs : Graph} {c : Cmd} (h : Chain base cs)
